@@ -28,6 +28,9 @@ KEY = "contains-elapsed-since-midnight-on-transition-day"
 WHAT = ("Weekly.Contains measures time elapsed since local midnight instead of the wall-clock time of day: "
         "on a day with a UTC-offset (DST) transition the verdict is the one of the wall clock shifted by the step")
 
+KEY2 = "config-without-schedule-panics-dns-path"
+HPKG = "internal/home"
+
 DAY = 86400
 ANCHORS = [("Europe/Berlin", 1711846800), ("Europe/Berlin", 1729990800)]
 ZCLASSES = ["utc", "hour", "half", "quarter", "dst-north", "dst-south"]
@@ -252,7 +255,8 @@ def holder_walk(ctx, edges, eff):
     def step(e):
         nonlocal n
         n += 1
-        return {"i": n, "h": e["h"], "act": e["act"], "doc": e["doc"], "out": e["out"], "src": e["src"],
+        return {"i": n, "h": e["h"], "act": e["act"], "form": e.get("form", ""), "doc": e["doc"], "out": e["out"],
+                "src": e["src"],
                 "dst": e["dst"], "eff": {h: eff[dkey(e["dst"][h])] for h in ("g", "c")}}
 
     while left:
@@ -337,7 +341,7 @@ def holder_confirm(ctx, walk, bads):
             if any(x.get("kind") == "bad" for x in rows):
                 confirmed = [x for x in w[1:-1]]
                 b = next(x for x in rows if x.get("kind") == "bad")
-                r = dict(r, got_ok=b["got_ok"], got_dst=b["got_dst"], eff=b["eff"], reply=b.get("reply"))
+                r = dict(r, what=b["what"], got_ok=b["got_ok"], got_dst=b["got_dst"], eff=b["eff"], reply=b.get("reply"))
                 break
             if nh >= k:
                 break
@@ -347,6 +351,40 @@ def holder_confirm(ctx, walk, bads):
         r["hist"] = confirmed
         out.append(r)
     return out
+
+
+C18 = "C18"
+
+
+def open_keys():
+    return {k for k, v in vlib.known_findings().items() if v.get("status") == "open"}
+
+
+def holder_key(r):
+    """Narrow key of the nil-schedule defect: a configuration document WITHOUT a
+    schedule was loaded without error, both holders read back as the spec says,
+    and the only disagreement is that nothing that consults the schedule answers
+    (nil pointer panic in Contains / on the DNS path)."""
+    if r.get("act") != "yamlnone" or not r.get("got_ok"):
+        return None
+    if r.get("what") == "holder-no-schedule-panics":
+        effs = r.get("eff") or []
+        if effs and all("panics" in x and "nil pointer" in x for x in effs):
+            return KEY2
+    if r.get("what") == "holder-trace" and r.get("panics", 0) > 0 and r.get("reads_back_as_spec"):
+        return KEY2
+    return None
+
+
+def go_client(ctx, forms):
+    vout = ctx.path("c18_client.ndjson")
+    rc, out = ctx.go_test(HPKG, FILES, "^TestZZVerifC18ClientNoSchedule$",
+                          env={"VERIF_OUT": vout, "VERIF_C18_FORMS": ",".join(forms)})
+    rows = vlib.read_ndjson(vout)
+    summ = [r for r in rows if r.get("kind") == "summary"]
+    if rc != 0 or not summ or summ[0]["n"] != len(forms):
+        raise vlib.Inconclusive("C18 client harness did not complete:\n" + out[-3000:])
+    return rows
 
 
 def holder_trace(ctx):
@@ -393,9 +431,12 @@ def doc_of(o):
 def holder_trace_repro(ctx, rows, bad):
     """Re-run rejected steps in a new process: everything since the last reset
     (hidden state may be shared), the same request; reproduced = the same
-    observation again."""
+    observation again.  Lines that look like the known nil-schedule defect and
+    other lines have separate budgets, so that the former cannot hide the latter."""
+    cand = [i for i in bad if rows[i - 1].get("act") == "yamlnone" and rows[i - 1].get("panics", 0) > 0]
+    rest = [i for i in bad if i not in set(cand)]
     out = []
-    for n, i in enumerate(bad[:8]):
+    for n, i in enumerate(cand[:2] + rest[:8]):
         row = rows[i - 1]
         k = i - 1
         while k > 0 and rows[k - 1].get("k") != "reset":
@@ -403,18 +444,25 @@ def holder_trace_repro(ctx, rows, bad):
         walk = [{"reset": True}]
         for m in range(k, i):
             x = rows[m]
-            st = {"i": m + 1, "h": x["h"], "act": x["act"], "doc": doc_of(x), "out": ""}
+            st = {"i": m + 1, "h": x["h"], "act": x["act"], "form": x.get("form", ""), "doc": doc_of(x), "out": ""}
             if m == i - 1:
-                st["eff"] = {h: [[p[0], p[2]] for p in x[h]["probes"]] for h in ("g", "c")}
+                # (an unanswered probe, 2, is asked again against the spec's answer for the empty schedule)
+                st["eff"] = {h: [[p[0], 0 if p[2] == 2 else p[2]] for p in x[h]["probes"]] for h in ("g", "c")}
             walk.append(st)
         obs, _ = go_holder(ctx, walk, tag="t%d" % n)
         o = next((x for x in obs if x.get("kind") == "obs" and x.get("i") == i), None)
         got = {h: doc_of(row[h]) for h in ("g", "c")}
-        same = o is not None and o["ok"] == row["ok"] and o["get"] == got and not o.get("eff")
+        npan = len([x for x in (o or {}).get("eff") or [] if "panics" in x])
+        same = (o is not None and o["ok"] == row["ok"] and o["get"] == got
+                and (npan > 0) == (row.get("panics", 0) > 0)
+                and not [x for x in o.get("eff") or [] if "panics" not in x])
         prev = rows[i - 2] if i >= 2 and rows[i - 2].get("k") == "op" else None
-        rec = {"what": "holder-trace", "trace_line": i, "h": row["h"], "act": row["act"],
-               "src": {h: doc_of(prev[h]) for h in ("g", "c")} if prev else BOOT2, "doc": doc_of(row),
-               "got_ok": bool(row["ok"]), "got_dst": got, "probes": {h: row[h]["probes"] for h in ("g", "c")},
+        src = {h: doc_of(prev[h]) for h in ("g", "c")} if prev else BOOT2
+        oth = "c" if row["h"] == "g" else "g"
+        rec = {"what": "holder-trace", "trace_line": i, "h": row["h"], "act": row["act"], "form": row.get("form", ""),
+               "src": src, "doc": doc_of(row), "got_ok": bool(row["ok"]), "got_dst": got,
+               "probes": {h: row[h]["probes"] for h in ("g", "c")}, "panics": row.get("panics", 0),
+               "reads_back_as_spec": got[row["h"]] == BOOT and got[oth] == src[oth],
                "want_out": "see TraceScheduleHolder", "want_dst": None, "hist": walk[1:-1]}
         out.append((rec, same))
     return out
@@ -573,7 +621,7 @@ def run(ctx):
     for v in hgen["vectors"]:
         if v.get("k") != "edge":
             continue
-        key = (dkey(v["src"]), v["h"], v["act"], dkey(v["doc"]))
+        key = (dkey(v["src"]), v["h"], v["act"], v.get("form", ""), dkey(v["doc"]))
         if key not in seen:          # TLC emits an edge once per value of the history variables
             seen.add(key)
             edges.append(v)
@@ -586,7 +634,7 @@ def run(ctx):
         per_src[dkey(e["src"])] = per_src.get(dkey(e["src"]), 0) + 1
     if not dsts <= srcs or min(per_src.values()) < 60:
         raise vlib.Inconclusive("holder spec: a reachable state has no (or too few) outgoing edges printed")
-    if len(edges) < 5000 or n_rej < 3000 or len(acts) != 8 or len(eff) < 11:
+    if len(edges) < 5000 or n_rej < 3000 or len(acts) != 10 or len(eff) < 11:
         raise vlib.Inconclusive("vacuous: holder spec emitted %d edges, %d rejected, requests %s, %d states" % (
             len(edges), n_rej, sorted(acts), len(eff)))
     walk = holder_walk(ctx, edges, eff)
@@ -597,10 +645,31 @@ def run(ctx):
     kinds = {}
     for r in hbad:
         kinds.setdefault(r["what"], []).append(r)
+    confirmed = 0
     for what, rs in sorted(kinds.items()):
         ctx.cov.setdefault("disagreements_by_kind", {})[what] = len(rs)
-        for r in holder_confirm(ctx, walk, rs[:4]):
-            ctx.disagreement(None, r, holder_describe(r))
+        for r in holder_confirm(ctx, walk, rs[:2] if what == "holder-no-schedule-panics" else rs[:4]):
+            confirmed += 1
+            ctx.disagreement(holder_key(r), r, holder_describe(r))
+    known_holder = len(kinds.get("holder-no-schedule-panics", [])) if (C18, KEY2) in open_keys() else 0
+    # the same requests to a persistent client of the configuration file (package home)
+    forms = sorted({e["form"] for e in edges if e["act"] == "yamlnone"})
+    crows = go_client(ctx, forms)
+    for r in crows:
+        if r.get("kind") != "client":
+            continue
+        want = [] if r["form"] == "section-blank" else ["youtube"]
+        if r.get("err") or not r["loaded"] or r["panicked"] or r["names"] != want:
+            if not (r["again_panicked"] == r["panicked"] and r["again_names"] == r["names"]):
+                ctx.notes.append("client form %s not reproduced" % r["form"])
+                continue
+            rec = dict(r, what="client-no-schedule", want_names=want)
+            known_holder += 1 if r["panicked"] and r["loaded"] else 0
+            report(ctx, KEY2 if (r["loaded"] and r["panicked"] and "nil pointer" in r["panicked"]) else None, rec,
+                   "persistent client with blocked_services spelled %r: loaded=%s, DNS path %s, services %s (spec: the "
+                   "empty schedule, services %s blocked at every instant)" % (
+                       r["form"], r["loaded"], ("panics: " + r["panicked"]) if r["panicked"] else "answers",
+                       r["names"], want))
     htrows, htbad = holder_trace(ctx)
     hunrepro = 0
     for rec, same in holder_trace_repro(ctx, htrows, htbad):
@@ -608,8 +677,8 @@ def run(ctx):
             hunrepro += 1
             ctx.notes.append("holder trace line %d not reproduced in a new process" % rec["trace_line"])
             continue
-        report(ctx, None, rec, holder_describe(rec))
-    if hunrepro > 2 or (hbad and not ctx.violations):
+        report(ctx, holder_key(rec), rec, holder_describe(rec))
+    if hunrepro > 2 or (hbad and not confirmed):
         raise vlib.Inconclusive("holder disagreements did not reproduce in a new process (%d walk steps, %d trace lines)" % (
             len(hbad), hunrepro))
 
@@ -682,7 +751,8 @@ def run(ctx):
         "trace_ser_lines_with_sub_ms": sum(1 for r in trows if r["k"] == "ser" and any(x[0] or x[1] for x in r["wn"])),
         "filtering_path_evaluations": asumm["evals"], "filtering_path_blocked": asumm["blocked"],
         "trace_lines": len(trows), "trace_lines_rejected": len(tbad),
-        "rows_matching_known_finding": known_rows + known_apply + tknown,
+        "rows_matching_known_finding": known_rows + known_apply + tknown + known_holder,
+        "holder_steps_without_schedule": hsumm.get("bad_no_schedule", 0),
         "truncated_by_known_finding": 0,
         "flaky": sum(1 for r in rows + arows if r.get("kind") == "flaky"),
         "exhaustive": not ctx.quick,
@@ -744,13 +814,19 @@ def trace_record(row, i, hist=None):
 
 def replay(ctx, path):
     rec = json.load(open(path))["record"]
+    if rec.get("what") == "client-no-schedule":
+        rows = go_client(ctx, [rec["form"]])
+        r = next(x for x in rows if x.get("kind") == "client")
+        print(json.dumps({"client_blocked_services_spelling": rec["form"], "expected": {"services_blocked": rec["want_names"]},
+                          "observed": {"loaded": r["loaded"], "panic": r["panicked"], "services_blocked": r["names"]}}, indent=1))
+        return 1 if (r["panicked"] or r["names"] != rec["want_names"] or not r["loaded"]) else 0
     if str(rec.get("what", "")).startswith("holder"):
         walk = [{"reset": True}] + list(rec.get("hist") or [])
-        last = {"i": 10 ** 9, "h": rec["h"], "act": rec["act"], "doc": rec["doc"]}
+        last = {"i": 10 ** 9, "h": rec["h"], "act": rec["act"], "form": rec.get("form", ""), "doc": rec["doc"]}
         if rec.get("want_dst") is not None:
             last.update({"out": rec["want_out"], "src": rec["src"], "dst": rec["want_dst"], "eff": rec.get("probes") or {}})
         else:
-            last.update({"out": "", "eff": {h: [[p[0], p[2]] for p in rec["probes"][h]] for h in ("g", "c")}})
+            last.update({"out": "", "eff": {h: [[p[0], 0 if p[2] == 2 else p[2]] for p in rec["probes"][h]] for h in ("g", "c")}})
         walk.append(last)
         rows, _ = go_holder(ctx, walk, tag="r")
         bad = [r for r in rows if r.get("kind") == "bad"]
@@ -758,9 +834,12 @@ def replay(ctx, path):
         head = {"earlier_requests_in_the_same_process": len(rec.get("hist") or []), "holders_before": rec["src"],
                 "request": {"holder": rec["h"], "act": rec["act"], "doc": rec["doc"]}}
         if rec.get("want_dst") is None:
-            same = obs.get("ok") == int(rec["got_ok"]) and obs.get("get") == rec["got_dst"] and not obs.get("eff")
+            pan = [x for x in obs.get("eff") or [] if "panics" in x]
+            same = (obs.get("ok") == int(rec["got_ok"]) and obs.get("get") == rec["got_dst"]
+                    and bool(pan) == (rec.get("panics", 0) > 0) and len(pan) == len(obs.get("eff") or []))
             print(json.dumps(dict(head, recorded={"ok": rec["got_ok"], "holders_after": rec["got_dst"]},
-                                  observed={"ok": bool(obs.get("ok")), "holders_after": obs.get("get")},
+                                  observed={"ok": bool(obs.get("ok")), "holders_after": obs.get("get"),
+                                            "probes_not_answered": obs.get("eff")},
                                   same_as_recorded=same), indent=1))
             return 1 if same else 0
         print(json.dumps(dict(head, expected={"reply": rec["want_out"], "holders_after": rec["want_dst"]},
